@@ -61,7 +61,7 @@ func vpAsked(v *vpVerifier, s spec.ServerName) bool {
 	return false
 }
 
-// vp:check C06 both configs=version:ALLVERSIONS K=12 timeout=900
+// vp:check C06 both configs=version:1|2|3|4|5|6|7|8|9|10|11|12|org.matrix.msc3787|org.matrix.msc3667|org.matrix.hydra.11 K=12 timeout=900
 // vp_C06_signers: VerifyEventSignatures consults exactly the protocol-required servers (sender's; v1/v2: event ID's;
 // invite: invited user's; join with join_authorised_via_users_server where restricted joins exist: that user's), each
 // with the redacted event, its origin_server_ts and the key-validity rule of the room version (strict from version 5),
